@@ -69,8 +69,9 @@ def main(argv):
     old = {}
     if os.path.exists(os.path.join(dst, 'meta.json')):
         old = json.load(open(os.path.join(dst, 'meta.json')))
-    if old.get('needs_to_manifest'):
-        meta['needs_to_manifest'] = old['needs_to_manifest']
+    for k_ in ('needs_to_manifest', 'history'):
+        if old.get(k_):
+            meta[k_] = old[k_]
     json.dump(meta, open(os.path.join(dst, 'meta.json'), 'w'), indent=1)
     print(json.dumps(meta, indent=1))
     return 0
